@@ -3,6 +3,7 @@
 
 mod c03;
 mod c04;
+mod c06;
 mod c07;
 mod c11;
 mod c12;
@@ -14,6 +15,11 @@ mod net;
 mod util;
 
 use vcommon::report::machinery_failure;
+
+/// a well-behaved pub/sub round trip (shared by C06 and C11)
+pub async fn c11_round_trip(addr: std::net::SocketAddr, set: &certs::CertSet, topic: &str) -> Result<(), String> {
+    c11::pubsub_round_trip(addr, set, topic).await
+}
 
 fn main() {
     let args: Vec<String> = std::env::args().collect();
@@ -45,6 +51,7 @@ fn main() {
             match id.as_str() {
                 "C03" => c03::run(&run_tier, replaying).await,
                 "C04" => c04::run(&run_tier, replaying).await,
+                "C06" => c06::run(&run_tier, replaying).await,
                 "C07" => c07::run(&run_tier, replaying).await,
                 "C11" => c11::run(&run_tier, replaying).await,
                 "C12" => c12::run(&run_tier, replaying).await,
